@@ -44,6 +44,9 @@ type TBCase struct {
 	QueryMs    int          `json:"query_ms"`
 	NQReq      int          `json:"nqreq"`
 	Calls      []TBCall     `json:"calls,omitempty"`
+	// Listen: the service connects by itself (ListenAndServe) instead of
+	// being handed a connection
+	Listen bool `json:"listen,omitempty"`
 }
 
 // TierBScenario runs the real nats.go client over net.Pipe against the
@@ -57,6 +60,7 @@ func (TierBScenario) GenCase(r *rand.Rand, prop string) interface{} {
 	switch prop {
 	case "C09":
 		c.Mode = "reconnect"
+		c.Listen = chance(r, 40)
 	case "C15":
 		c.Mode = "queryrelease"
 	case "C19":
@@ -187,13 +191,29 @@ func tbReconnect(c *TBCase, b *natsim.Broker, h *Hist, out *Outcome) {
 		}
 		svc.Handle(p.Pattern, opts...)
 	}
-	nc, err := tbConnect(b, "service")
-	if err != nil {
-		h.Violate("C09", "tierb-connect", "", err.Error())
-		return
-	}
+	var nc *nats.Conn
 	done := make(chan error, 1)
-	go func() { done <- svc.Serve(nc) }()
+	if c.Listen {
+		out.Faults["listen-and-serve"]++
+		go func() {
+			done <- svc.ListenAndServe("nats://127.0.0.1:4222", nats.SetCustomDialer(b), nats.ReconnectWait(50*time.Millisecond), nats.Timeout(2*time.Second), nats.PingInterval(30*time.Second))
+		}()
+	} else {
+		var err error
+		nc, err = tbConnect(b, "service")
+		if err != nil {
+			h.Violate("C09", "tierb-connect", "", err.Error())
+			return
+		}
+		go func() { done <- svc.Serve(nc) }()
+	}
+	stop := func() {
+		if nc != nil {
+			nc.Close()
+		} else {
+			go svc.Shutdown()
+		}
+	}
 	settle(10 * time.Millisecond)
 	resources, access := ownedModel(sc)
 	resSet, accSet := setOf(resources), setOf(access)
@@ -202,7 +222,7 @@ func tbReconnect(c *TBCase, b *natsim.Broker, h *Hist, out *Outcome) {
 		if n := len(resets(b)); n != 0 {
 			h.Violate("C09", "reset-without-ownership", "tierb", fmt.Sprintf("%d resets", n))
 		}
-		nc.Close()
+		stop()
 		settle(time.Second)
 		return
 	}
@@ -220,7 +240,7 @@ func tbReconnect(c *TBCase, b *natsim.Broker, h *Hist, out *Outcome) {
 	rs := resets(b)
 	if len(rs) != 1 {
 		h.Violate("C09", "reset-count", "start", fmt.Sprintf("service %q owned=%v: %d system.reset after start over a real nats.Conn, expected 1", c.SvcName, c.Owned, len(rs)))
-		nc.Close()
+		stop()
 		settle(time.Second)
 		return
 	}
@@ -584,6 +604,9 @@ func tbSendReq(c *TBCase, b *natsim.Broker, h *Hist, out *Outcome) {
 func tbShutdown(svc *res.Service, nc *nats.Conn, h *Hist) {
 	go func() {
 		if err := svc.Shutdown(); err != nil {
+			return
+		}
+		if nc == nil {
 			return
 		}
 		h.Evals++
